@@ -425,6 +425,12 @@ func (run *FuncRun) funcTerm(st *State, x Val) Term {
 		run.declare(name, "(declare-const "+name+" Func)")
 		return Term{name, SFunc}
 	case *Closure:
+		// a closure used as a first-class value may be called by anyone
+		for _, b := range f.Bindings {
+			if t, ok := b.(Term); ok {
+				st.escape(t.S)
+			}
+		}
 		return st.Fresh("closure", SFunc)
 	}
 	return Term{"func_nil", SFunc}
@@ -547,15 +553,19 @@ func (run *FuncRun) writeRoot(st *State, l *LVal, v Val) {
 	switch l.Root {
 	case rObj:
 		name := compStruct(l.Sort)
+		st.storedInto(l.Ref.S, t.S)
 		st.SetH(name, Store(st.H(name, ArrSort(SInt, l.Sort)), l.Ref, t))
 	case rCell:
 		name := compCell(l.Sort)
+		st.storedInto(l.Ref.S, t.S)
 		st.SetH(name, Store(st.H(name, ArrSort(SInt, l.Sort)), l.Ref, t))
 	case rElem:
 		name := compArr(l.Sort)
+		st.storedInto(l.Ref.S, t.S)
 		h := st.H(name, ArrSort(SInt, ArrSort(SInt, l.Sort)))
 		st.SetH(name, Store(h, l.Ref, Store(Select(h, l.Ref), l.Idx, t)))
 	case rGlobal:
+		st.escape(t.S)
 		st.heap[compGlobal(l.Global)] = t
 		st.run.compSorts[compGlobal(l.Global)] = t.Sort
 	}
@@ -716,6 +726,8 @@ func (run *FuncRun) execInstr(st *State, instr ssa.Instruction) bool {
 		mt := in.Map.Type().Underlying().(*types.Map)
 		run.addObligation(st, "nil", "mapwrite", Neq(m, IntLit(0)), "assignment to entry in nil map", run.posOf(in))
 		st.Assume(Neq(m, IntLit(0)))
+		st.storedInto(m.S, v.S)
+		st.storedInto(m.S, k.S)
 		run.mapStore(st, mt, m, k, v)
 	case *ssa.MakeMap:
 		mt := in.Type().Underlying().(*types.Map)
